@@ -132,7 +132,7 @@ func genC07(rt *rapid.T) c07Case {
 			kinds = append(kinds, "pong", "pong")
 		}
 		if c.Carrier == "polling" {
-			kinds = append(kinds, "upgrade", "upgrade", "upgrade")
+			kinds = append(kinds, "upgrade", "upgrade", "upgrade", "failedCandidate", "failedCandidate")
 		}
 		e := hbExtra{Kind: rapid.SampledFrom(kinds).Draw(rt, "extraKind")}
 		// offsets of 100+i microseconds keep extras off the whole-millisecond grid of pings and deadlines
@@ -531,6 +531,31 @@ func runC07(c c07Case) (fail string, stats map[string]bool) {
 				if c.Rev == 3 {
 					uncertainFrom, deadline = deadline, -1
 				}
+			case "extra:failedCandidate":
+				// an upgrade attempt that comes to nothing: a websocket candidate for the session connects and sends
+				// something that is not a probe, or goes away again; only the candidate pays, the session's
+				// heartbeat (a ping may be outstanding) goes on as if nothing had happened
+				if s.pc == nil || vanished {
+					break
+				}
+				cand := &WSClient{W: w, O: ClientOpts{Rev: c.Rev, EIO: eio}, Sid: s.pc.Sid}
+				cand.Start()
+				Settle()
+				cand.Pump()
+				if cand.HTTPStatus == 101 {
+					if len(c.Extras)%2 == 0 {
+						cand.SendPacket(msgT("not a probe"), nil)
+					} else {
+						cand.Drop()
+					}
+					Settle()
+					cand.Drop()
+					Settle()
+					stats["failed-upgrade-attempt"] = true
+					if deadline >= 0 {
+						stats["failed-upgrade-attempt-while-a-deadline-is-armed"] = true
+					}
+				}
 			case "extra:vanish":
 				if s.pc != nil || vanished {
 					break
@@ -663,7 +688,7 @@ func TestC07Heartbeat(t *testing.T) {
 			rt.Fatalf("%v: %s", c, clipStr(res.Leak, 1500))
 		}
 	})
-	col.RequireClasses(t, "peer-vanished", "vanished-peer-timed-out", "timeout", "stayed-open", "within-1ms-of-deadline", "pong-at-deadline-race", "wrong-direction", "unsolicited-pong", "duplicate-pong", "v3-ping", "v3-ping-after-upgrade", "upgraded-to-websocket", "upgraded-to-webtransport", "other-traffic", "carrier.polling", "carrier.websocket", "carrier.webtransport", "heartbeats-in-data-requests-without-declared-length")
+	col.RequireClasses(t, "failed-upgrade-attempt", "failed-upgrade-attempt-while-a-deadline-is-armed", "peer-vanished", "vanished-peer-timed-out", "timeout", "stayed-open", "within-1ms-of-deadline", "pong-at-deadline-race", "wrong-direction", "unsolicited-pong", "duplicate-pong", "v3-ping", "v3-ping-after-upgrade", "upgraded-to-websocket", "upgraded-to-webtransport", "other-traffic", "carrier.polling", "carrier.websocket", "carrier.webtransport", "heartbeats-in-data-requests-without-declared-length")
 }
 
 const sigVanishedPeer = "closed-session-keeps-connection-and-writer-of-a-peer-that-stopped-reading"
